@@ -655,6 +655,10 @@ func (b Browse) ServeArchive(w http.ResponseWriter, r *http.Request, dirPath str
 	})
 
 	if err != nil {
+		// stop the goroutine that copies to w before returning: it must not
+		// write to the response after this handler has returned
+		bufW.CloseWithError(err)
+		<-writeComplete
 		return http.StatusInternalServerError, err
 	}
 
